@@ -67,6 +67,12 @@ def main():
     finally:
         sh(f"git -C /repo worktree remove --force {copy}")
         shutil.rmtree(tmp, ignore_errors=True)
+        # the scratch build directories of this copy (build/<ID>-scratch-<hash of its path>) are of no further use
+        import hashlib
+
+        tag = "-scratch-" + hashlib.blake2b(str(copy).encode(), digest_size=4).hexdigest()
+        for bd in (ROOT / "build").glob("*" + tag):
+            shutil.rmtree(bd, ignore_errors=True)
 
 
 if __name__ == "__main__":
